@@ -233,4 +233,12 @@ def boot(cfg):
         solved = c09.solve(tracer.events)
         b.shipped_sizes = dict(solved["sizes"])
         b.snapshot["compound_declared"] = sorted(c09.compound_declared(solved))
+        b.snapshot["shipped_sized"] = sorted(b.shipped_sizes)
+        b.snapshot["shipped_sizes"] = {t: str(v) for t, v in b.shipped_sizes.items()}
+        scales = set()
+        for ev in tracer.events:
+            if ev.get("f") == "translate":
+                scales.update(ev["scale"].get("names", []))
+                scales.update(ev["zero"]["u"].get("names", []) if ev["zero"]["u"].get("base") else [])
+        b.snapshot["scale_units"] = sorted(scales)
     return b
